@@ -98,9 +98,11 @@ def run(names, props, tier, seeds) -> int:
                 t0 = time.time()
                 r = sh(cmd, cwd=ROOT, timeout=3600)
                 first = next((ln.strip() for ln in r.stdout.splitlines() if ln.startswith("  C")), "")
+                import re
+                counts = [int(m.group(1)) for m in re.finditer(r"reported by (\d+) simulated run", r.stdout)]
                 meta["checks"][pid] = {"exit": r.returncode, "wall_s": round(time.time() - t0, 1), "first_violation": first[:300],
-                                       "cmd": " ".join(cmd[-4:])}
-                print(f"{name}: check {pid} exit {r.returncode} ({time.time() - t0:.0f}s) {first[:200]}")
+                                       "runs_reporting": sum(counts), "cmd": " ".join(cmd[-4:])}
+                print(f"{name}: check {pid} exit {r.returncode} ({time.time() - t0:.0f}s) [{sum(counts)} runs] {first[:200]}")
         finally:
             sh(["git", "-C", "/repo", "checkout", "--", "."])
         json.dump(meta, open(mp, "w"), indent=1)
@@ -120,7 +122,7 @@ def report() -> int:
             continue
         m = json.load(open(mp))
         c = m["confirmed"]
-        chk = "; ".join(f"{k}: exit {v['exit']} — {v['first_violation'][:110]}" for k, v in sorted(m["checks"].items()))
+        chk = "; ".join(f"{k}: exit {v['exit']} ({v.get('runs_reporting', '?')} runs) — {v['first_violation'][:110]}" for k, v in sorted(m["checks"].items()))
         lines.append(f"| {name} | {c['suite_with_patch'].split(',')[0]} | {c['demo_without_patch_exit']} / {c['demo_with_patch_exit']} | {chk} |")
     notes = os.path.join(SEEDED, "NOTES.md")
     extra = open(notes).read() if os.path.exists(notes) else ""
